@@ -299,9 +299,6 @@ func extAEADSeal(fr *frame, args []value) value {
 		ctEq := i.bytesEqTerm(s.ct, ct)
 		// same key, nonce: plaintexts equal iff ciphertexts equal
 		e.axiom(implies(st, kn, iff(st, ptEq, ctEq)))
-		// different key, nonce or associated data: the outputs (ciphertext and
-		// tag) differ - an equal output would be a forgery under the other nonce
-		e.axiom(implies(st, st.BNot(kn), st.BNot(ctEq)))
 	}
 	cl.seals = append(cl.seals, &sealEntry{key: key, nonce: nonce, pt: pt, ad: ad, ct: cloneVals(ct)})
 	return append(dst, ct...)
